@@ -366,10 +366,17 @@ Ok_C05 ==
 (* C06  a departure removes exactly the leaver's non-persistent entities   *)
 (*      and attachments                                                    *)
 (***************************************************************************)
+\* "its entities" are the entities it created (the owner recorded with the entity), whatever the connection's own
+\* bookkeeping of them says at that moment
+OwnedBy(st, c) ==
+  LET cn == st.conns[c] IN
+  IF cn.sid \in DOMAIN st.sess
+  THEN {e \in DOMAIN st.sess[cn.sid].ents : st.sess[cn.sid].ents[e].owner = cn.pid} ELSE {}
+
 Ok_C06 ==
   Departed /\ SidOf(pre, Actor) \in DOMAIN pre.sess =>
     LET c == Actor  s0 == SidOf(pre, c)
-        L == LeaveOf(pre, c, NoOut)
+        L == LeaveOf([pre EXCEPT !.conns[c].own = OwnedBy(pre, c)], c, NoOut)
         \* the session the actor left, if it still exists (an id may be reused at once)
         alive(st) == s0 \in DOMAIN st.sess /\ st.sess[s0].uuid = pre.sess[s0].uuid
         want == L.st.sess[s0]
